@@ -32,24 +32,7 @@ def budget(tier):
     return {"runs": 256, "wall": 600}
 
 
-def dist_entries(rng, w, signed=False, allow_zero=True):
-    lo, hi = (-(1 << (w - 1)), (1 << (w - 1)) - 1) if signed else (0, (1 << w) - 1)
-    n = rng.randint(2, 5)
-    pts = sorted(rng.sample(range(lo, hi + 1), min(hi - lo + 1, 2 * n)))
-    ents = []
-    i = 0
-    while i < len(pts) and len(ents) < n:
-        if i + 1 < len(pts) and rng.random() < 0.4:
-            ents.append({"v": [pts[i], pts[i + 1]], "w": rng.choice([1, 2, 3, 5, 8])})
-            i += 2
-        else:
-            ents.append({"v": pts[i], "w": rng.choice([1, 2, 3, 5, 8])})
-            i += 1
-    if allow_zero and len(ents) >= 2 and rng.random() < 0.6:
-        ents[rng.randrange(len(ents))]["w"] = 0
-    if all(e["w"] == 0 for e in ents):
-        ents[0]["w"] = 1
-    return ents
+dist_entries = scen.dist_entries
 
 
 def generate(seed, tier):
